@@ -28,6 +28,7 @@ EXPR_CHILDREN_ML = [
     '(a +\n b)', 'a + \\\n b', 'f(a,\n  b)', '[a,\n b]', '(a if b\n else c)', "'''m\nl'''", '(a, # c\n b)',
     '(a\n and b)', '(lambda:\n a)', 'a[\n b]',
     '(a + # c \\\n b)', '(a # c:\\tmp\\\n .b)',  # a comment that ends in a backslash is not a line continuation
+    "('m'  # c \\\n'l')", "('m'  # c \\\n f'{l}')",  # the same between the parts of an implicitly concatenated string
     '(a\n.b)', '(a\n[0])', '(a\n.b).c',
     '*(a +\n b)', 'a\n.b', '"""m\nl"""\n"""k"""', "'m'\n'l'", '("""m\nl"""\n"""k""")',  # implicit concatenation: the line break BETWEEN the literals is not inside a string
      # a starred expression whose value needs its parentheses; code that spans lines without any delimiter of its own
